@@ -273,6 +273,18 @@ async fn run(case: &Case) -> Outcome {
         Stamp::of(sender_last_updated)
     );
     compare_sets(&sender, &received)?;
+
+    // A peer that is up but does not serve its state (its store is not attached yet, or was detached): whatever the
+    // requester is handed must still be the peer's state — an error is fine, somebody's idea of "nothing" is not
+    // (since the seeded change `C19n`).
+    server.remove_service(<ReplicationService<ModelStore> as datacake_rpc::RpcService>::service_name());
+    if let Ok((_, received)) = client.get_state(ks).await {
+        compare_sets(&sender, &received).map_err(|mut f| {
+            f.signature = "state-from-a-peer-that-does-not-serve-it".into();
+            f.message = format!("the peer's replication service is not registered, yet get_state returned a state, and it is not the peer's: {}", f.message);
+            f
+        })?;
+    }
     datacake_rpc::verif::unregister(addr);
     server.shutdown();
 
